@@ -54,9 +54,9 @@ Lemma holder_dangling f chain t i g : resolving t = true -> dangling E i -> chai
 Proof.
   intros Ht Hd Hc. destruct (dangling_resolve _ _ Hd) as [e [He Hm]].
   destruct t; try discriminate Ht; cbn [read read_dict]; rewrite ?Hc, ?He; cbn [tbind tmap];
-    try (exists e; split; [reflexivity|exact Hm]).
-  - (* mayberef *) eexists. split; [reflexivity|]. apply shared_looked_through. exact Hm.
-  - (* rcref *) eexists. split; [reflexivity|]. apply shared_looked_through. exact Hm.
+    try (exists e; split; [reflexivity|exact Hm]);
+    (* mayberef, rcref: whether or not Resolve::get wraps the error (generated constant) *)
+    try (eexists; split; [reflexivity|]; apply shared_looked_through; exact Hm).
   - (* struct *) cbn [resolving] in Ht. destruct (get_struct SC i0); [|discriminate]. cbn [tbind]. rewrite ?He. cbn [tbind].
     exists e. split; [reflexivity|exact Hm].
 Qed.
